@@ -1,6 +1,6 @@
 SPECIFICATION Spec
 CONSTANTS
-  NewLen = 5
+  NewLen = 3
   ErrLen = 1
   Cuts <- MCCuts
   Codes <- MCCodes
@@ -11,9 +11,9 @@ CONSTANTS
   WriteInPlace = FALSE
   PersistBeforeStatusCheck = FALSE
   TruncatedIsSuccess = FALSE
-  SkipValidation = FALSE
+  SkipValidation = TRUE
   FixedTempName = FALSE
   NoStaleFallback = FALSE
   AbortOnRefreshError = FALSE
-INVARIANTS TypeOK Atomic FailKeeps ChangeOnlyOnSuccess SuccessVisible SuccessIsComplete Recovers StartsAnyway FallsBack NoStuck EmitCase
+INVARIANTS SuccessIsComplete
 CHECK_DEADLOCK FALSE
